@@ -171,6 +171,16 @@ func (p *Program) localMods(sv *VC, f *ssa.Function, in ssa.Instruction, ms *Mod
 	switch x := in.(type) {
 	case *ssa.Store:
 		p.addrMods(sv, x.Addr, x.Val.Type(), note)
+		if fa, ok := x.Addr.(*ssa.FieldAddr); ok {
+			st := fa.X.Type().Underlying().(*types.Pointer).Elem()
+			if isModuleStruct(st) {
+				c, _, _ := sv.fieldCompOf(st, fa.Field)
+				if name, ok := p.contracts.countStores[c]; ok {
+					sv.compDecl("Gcnt_"+name, SInt)
+					note("Gcnt_"+name, false)
+				}
+			}
+		}
 	case *ssa.Alloc:
 		// zero-initialisation of the fresh object
 		et := x.Type().Underlying().(*types.Pointer).Elem()
